@@ -438,15 +438,17 @@ def check_outputs(ctx: Ctx, h: dict, count: bool = True) -> tuple[bool, bool]:
         diff = B.diff_outputs(dm, fm)
         if diff:
             any_diff = True
+            obs, rest = explain(diff, dm, fm, hist_state)
+            rest_lines = [x for x in rest if x[0] in "+-"]
             # stub removal: the daemon does not notice; every differing line is in a file that (transitively)
             # imports the module whose stub went away
-            if hist_state["stub_removed"] and lines_within(diff, dependents(st["files"], [r[:-4] for r in hist_state["stub_removed"]])):
+            if rest and hist_state["stub_removed"] and lines_within(rest_lines, dependents(st["files"], [r[:-4] for r in hist_state["stub_removed"]])):
                 ctx.report({"class": "module-path-change-undetected", "edit": "stub-removed-source-unchanged"},
                            f"a stub was deleted while the source file it shadowed is unchanged since the daemon last saw it: the daemon "
                            f"keeps checking against the deleted stub ({hist_state['stub_removed']}, follow-imports={h['mode']}, step {k}): {diff[:3]}",
                            replay_of(h, k, diff))
                 break
-            if blocker_moved:
+            if rest and blocker_moved:
                 ctx.report({"class": "module-path-change-undetected", "edit": "blocking-error-module-moved"},
                            f"a blocking error was pending in a module whose file then changed path (stub added / moved into a package): "
                            f"update() re-processes the module at its old path first ({h['kind']} history, follow-imports={h['mode']}, step {k}): {diff[:3]}",
@@ -456,7 +458,6 @@ def check_outputs(ctx: Ctx, h: dict, count: bool = True) -> tuple[bool, bool]:
                 ctx.report({"class": "stat-invisible-edit"}, "a same-size edit within the same mtime second is not seen by the daemon",
                            replay_of(h, k, diff))
                 break
-            obs, rest = explain(diff, dm, fm, hist_state)
             if rest:
                 ctx.report({"class": "daemon-differs-from-full", "follow_imports": h["mode"]},
                            f"daemon check differs from a full check of the same files ({h['kind']} history {h.get('name') or h['hid']}, "
